@@ -664,16 +664,19 @@ func runC06(r *Run, p *Prog) {
 		n := 0
 		for _, f := range a.methods {
 			for _, cs := range compiledPatterns(p, f) {
-				n++
-				k, isK := cs.Common.Args[0].(*ssa.Const)
-				ok := false
-				pat := ""
-				if isK {
-					fmt.Sscanf(constTerm(k), "const:%q", &pat)
-					_, err := regexp.Compile(pat)
-					ok = err == nil && strings.HasPrefix(pat, "^")
+				pats, isK := patternTexts(cs.Common.Args[0])
+				if !isK {
+					pats = []string{""}
 				}
-				r.Ob("Q10", shortName(f), fmt.Sprintf("name pattern #%d is a constant anchored at the cursor", n), cs.Instr.Pos(), ok, fmt.Sprintf("pattern %q: an un-anchored pattern finds a name later in the text and skips what precedes it", pat))
+				for _, pat := range pats {
+					n++
+					ok := false
+					if isK {
+						_, err := regexp.Compile(pat)
+						ok = err == nil && strings.HasPrefix(pat, "^")
+					}
+					r.Ob("Q10", shortName(f), fmt.Sprintf("name pattern #%d is a constant anchored at the cursor", n), cs.Instr.Pos(), ok, fmt.Sprintf("pattern %q: an un-anchored pattern finds a name later in the text and skips what precedes it", pat))
+				}
 			}
 		}
 		if n == 0 {
